@@ -190,3 +190,12 @@ func isSliceType(v interface{}) bool {
 	}
 	return reflect.TypeOf(v).Kind() == reflect.Slice
 }
+
+// interfaceOf returns the value held by v; a nil pointer becomes an untyped nil
+// so that nil pointers in user provided data behave like a JSON null.
+func interfaceOf(v reflect.Value) interface{} {
+	if v.Kind() == reflect.Ptr && v.IsNil() {
+		return nil
+	}
+	return v.Interface()
+}
